@@ -19,6 +19,10 @@ P = {
  'C11': ('Element order: for every ordering of 2 and 3 solutes (and a reference element that is not alphabetically first) the real _interdiffusivitySingle / _tracerDiffusivitySingle / _computeSingleMobility return at the user\'s position the backend value of the element NAMED there '
          '(matrices permuted on both axes), and _getConditions maps X(name) to the user\'s number for that name; phase order: each of the five step-size constraints returns the same dt under every permutation of the phases and their per-phase data.',
          'backend (pycalphad) equivariance assumed; P = 2 quick, P = 3 thorough'),
+ 'C12': ('Partial: the kawin-side chain between driving force, Gibbs-Thomson energy, critical radius and growth sign, from the real source: g(R) = Vm(e_s + 2 f gamma/R) strictly decreasing, g(R*) = Vm(dGv + e_s); growth law (m_c/R)(dG - g) positive iff dG > g, interfacial = matrix composition at zero growth; '
+         'multicomponent: through the real volumetricDrivingForce, nucleationBarrier, particleGibbs, getGrowthAndInterfacialComposition and _singleGrowthMulti every size class above the reported critical radius grows, below shrinks, at it stands still (no elastic energy; with elastic energy a known finding); '
+         'binary: the table built by the real _createLookupBinary under the ASSUMED interface contract has the unstable classes as a prefix which receives the first stable composition, no sentinel survives, and the real _singleGrowthBinary changes sign at the reported critical radius (with and without elastic energy).',
+         'the interface contract I(T) relating pycalphad\'s common-tangent result to its driving force, the sign change at the solvus, monotonicity in supersaturation and agreement of the four driving-force methods are properties of an external numerical solver: assumed/undecided, listed in the evidence; constant aspect ratio; P = 1'),
  'C13': ('Schedule objects (precipitation and diffusion) executed for constant / break-point / function forms: the value equals the documented function of time (hours, linear, end values) and '
          'constructor, setter and model.setTemperature give the same function AND the same isothermal flag, also after re-specification; one accepted step (Euler or RK4 stage pattern) of PrecipitateBase records '
          'time[n+1] = accepted time and temperature[n+1] = schedule(time[n+1]) with all 16 histories aligned; ghost-state invariant dTemp = T[n] - T_tab, |dTemp| <= maxTempChange for the binary lookup table through the real '
@@ -84,7 +88,7 @@ for pid in sorted(P):
         'level_note': note + '; ' + COMMON_NOTE,
         'technique': 'sidecar contracts on the real functions; VCs generated from the ast of /repo on every run; z3/cvc5; counterexamples replayed on the imported real code'})
 allp = [json.loads(l)['id'] for l in open(os.path.join(HERE, 'properties.jsonl'))]
-na = [{'property_id': p, 'reason': 'contracts for this property are not yet in the committed tree (work in progress; DESIGN.md section 6 describes the planned obligations)'} for p in allp if p not in P]
+na = [{'property_id': p, 'reason': 'no check claimed'} for p in allp if p not in P]
 m = {'version': 1, 'setup_cmd': './setup.sh',
      'hooks': {'guard': 'KAWIN_VERIF', 'enable': 'no source hooks in /repo: contracts are sidecar files under /verif/contracts; bin/check sets KAWIN_VERIF=1 for its own process only',
                'baseline_off_cmd': 'cd /repo && /venv/bin/python -m pytest -ra -q -p no:cacheprovider --timeout=900 --continue-on-collection-errors', 'source_commits': [], 'add_only': True},
